@@ -4,12 +4,48 @@ import json, os, subprocess, sys
 HERE = os.path.dirname(os.path.dirname(os.path.abspath(__file__)))
 ALL = ["C%02d" % i for i in range(1, 21)]
 
+SEQ_NOTE = ("single session; model checking at fan-out 3 / 5-9 keys, conformance at the code's fan-out 15; trusted: canonical dump "
+            "through node accessors, driver-side value ids; a model failure or tool error is reported as undecided (exit 2), never as a violation")
+SEQ_TECH = "TLA+ model checking (TLC) of YkTree + TLC trace validation of real API executions (TraceTree)"
 CLAIMED = {
+    "C02": dict(cat="model_checking", ref="DESIGN.md 3.4-3.5, 6 (C02)",
+                text="TLC checks refinement of the tree algorithms (YkTree: splits, layers, node removal, collapse, root replacement) to an ordered map for "
+                     "every Put/Remove order over small key universes; every status/value of seeded put/unique-put/get/remove histories on the real code "
+                     "is judged by TLC against the abstract map (TraceTree ON={C02}).", note=SEQ_NOTE, tech=SEQ_TECH),
+    "C03": dict(cat="model_checking", ref="DESIGN.md 3.5, 6 (C03)",
+                text="TLC checks ScanTop (transliteration of scan/scan_border) = abstract interval for all endpoint/limit/direction arguments in every reachable "
+                     "state of small models; every real scan (status, keys, values, lengths, invalid-argument table) is judged by TLC against the abstract map.",
+                note=SEQ_NOTE, tech=SEQ_TECH),
+    "C05": dict(cat="model_checking", ref="DESIGN.md 3.5, 6 (C05)",
+                text="TLC checks PhantomOK/GetMissOK (every absent key of the covered interval, inserted, changes a recorded version) in all states of small models; on "
+                     "real executions TLC judges (a) real probe inserts after scan / get-miss / iscan against the recorded pairs, (b) the model-based insertion of "
+                     "every absent candidate key into the conforming tree, (c) non-emptiness of the collected set.", note=SEQ_NOTE, tech=SEQ_TECH),
+    "C08": dict(cat="model_checking", ref="DESIGN.md 3.5, 6 (C08)",
+                text="TLC checks WellFormed + Abs = map as invariants of all sequential histories of small models, and on canonical dumps of the real tree every few "
+                     "operations: sorted unique entries, separators bound subtrees, parent/child and prev/next consistency, leaf chain = in-order borders, no dirty or "
+                     "locked node, chain listing = descent lookups = abstract map. Concurrent quiescence is covered by the concurrent checks.", note=SEQ_NOTE, tech=SEQ_TECH),
+    "C10": dict(cat="model_checking", ref="DESIGN.md 6 (C10)",
+                text="First sentence (sequential cursor): every real iscan_open/next sequence (both directions, all endpoint kinds, early stop) is judged by TLC "
+                     "against the ordered abstract map incl. full_key and argument rejection. Second sentence (concurrent) is served by the concurrent cursor check "
+                     "when built; not claimed by this revision.", note=SEQ_NOTE, tech="TLC trace validation of real cursor executions (TraceTree ON={C10})"),
+    "C12": dict(cat="model_checking", ref="DESIGN.md 6 (C12)",
+                text="TLC checks the report rule on every inserting/updating Put of small models (LastOK) and judges every real put (inserted_node_info and legacy "
+                     "overload) against the set of border version words that actually changed (driver snapshots all borders before/after) and the split sibling.",
+                note=SEQ_NOTE, tech=SEQ_TECH),
     "C17": dict(cat="model_checking", ref="DESIGN.md 3.3, 6 (C17)",
                 text="TLC exhaustively checks the concurrent lock/unlock/flag/stable protocol (YkVersion) and TLC judges a replay of "
                      "every public operation of the real node_version64 on all 64 flag sets x counter boundary values (TraceVersionSeq).",
                 note="SC atomics; model counters mod 4, code modulus checked by replay at 0,1,2,2^28,2^29-2,2^29-1.",
                 tech="TLA+ model checking (TLC) + TLC trace validation of replayed implementation transitions"),
+    "C19": dict(cat="model_checking", ref="DESIGN.md 3.2, 6 (C19)",
+                text="TLC explores all reachable orderings of YkPerm for F=6 (8 in thorough) and judges a replay of the real 64-bit permutation word (every count, rank, "
+                     "free slot on an ordering family + random walks) against the sequence operators; exactly one word store per update.",
+                note="single atomic word assumed (std::atomic<uint64_t>); F=15 orderings sampled, not enumerated.",
+                tech="TLA+ model checking (TLC) + TLC trace validation of replayed implementation transitions"),
+    "C20": dict(cat="model_checking", ref="DESIGN.md 6 (C20)",
+                text="TLC recomputes mem_usage from the canonical dump of the real tree (node count per depth, reserved bytes exact, used <= reserved, used monotone "
+                     "in occupied slots) for seeded multi-level / multi-layer contents; MemOK invariant in small models.",
+                note=SEQ_NOTE + "; sizeof constants are logged by the driver and trusted", tech=SEQ_TECH),
 }
 NA_REASON = "check not built yet in this revision of the framework (planned: see DESIGN.md section 6)"
 
